@@ -5,8 +5,8 @@ Definition dig (c : Z) : Prop := 48 <= c <= 57.
 
 Lemma is_digit_true c : dig c -> is_digit c = true.
 Proof. unfold dig, is_digit. lia. Qed.
-Lemma dig_not_ws c : dig c -> is_ws c = false.
-Proof. unfold dig, is_ws. lia. Qed.
+Lemma dig_not_ws c : dig c -> is_ws_int c = false.
+Proof. unfold dig, is_ws_int. lia. Qed.
 
 (* ---- decimal printing ---- *)
 Lemma str_of_nonneg_digits n : 0 <= n -> Forall dig (str_of_nonneg n) /\ str_of_nonneg n <> [].
@@ -54,12 +54,12 @@ Proof.
     rewrite of_be_rev, rev_involutive. apply of_le_to_le_full; lia.
 Qed.
 
-Lemma lstrip_dig c r : dig c -> lstrip (c :: r) = c :: r.
-Proof. intros H. cbn [lstrip]. rewrite dig_not_ws by exact H. reflexivity. Qed.
+Lemma lstrip_dig c r : dig c -> lstrip_int (c :: r) = c :: r.
+Proof. intros H. cbn [lstrip_int]. rewrite dig_not_ws by exact H. reflexivity. Qed.
 
-Lemma strip_digits s : Forall dig s -> strip s = s.
+Lemma strip_digits s : Forall dig s -> strip_int s = s.
 Proof.
-  intros H. unfold strip. destruct s as [|c r]; [reflexivity|].
+  intros H. unfold strip_int. destruct s as [|c r]; [reflexivity|].
   rewrite lstrip_dig by (exact (Forall_inv H)).
   destruct (rev (c :: r)) as [|l t] eqn:Er.
   - apply (f_equal (@rev Z)) in Er. rewrite rev_involutive in Er. discriminate.
